@@ -2,6 +2,7 @@ package props
 
 import (
 	"fmt"
+	"go/constant"
 	"go/token"
 	"go/types"
 	"strings"
@@ -589,11 +590,12 @@ func r137(c *an.Ctx) {
 			if !fromDesc {
 				return
 			}
+			// the key reads "/" service "/" name, however it is put together (Sprintf, concatenation, a naming helper)
 			for _, v := range an.ValuesAt(mu.Key) {
-				if call, isCall := v.(*ssa.Call); isCall && an.CalleeName(call) == "fmt.Sprintf" {
-					if cst, isC := call.Call.Args[0].(*ssa.Const); isC && cst.Value != nil && cst.Value.ExactString() == `"/%s/%s"` {
-						ok = true
-					}
+				parts := stringParts(v, nil, 0)
+				if len(parts) == 4 && parts[0].text == "/" && parts[2].text == "/" && parts[1].val != nil && parts[3].val != nil &&
+					derivesFromField(parts[1].val, "ServiceName") && derivesFromField(parts[3].val, t[1]) {
+					ok = true
 				}
 			}
 		})
@@ -976,4 +978,145 @@ func r1313(c *an.Ctx) {
 	if n == 0 {
 		c.Unk(rule, "pkg/wrap.clientStream|half-close", 0, "clientSend is never closed: the server never sees the end of the client's messages")
 	}
+}
+
+// strPart is a piece of a string built by concatenation: literal text, or a value.
+type strPart struct {
+	text string
+	val  ssa.Value
+}
+
+// stringParts splits a string value into the pieces it is concatenated from: the operands of +, the literal text and
+// the %s/%v arguments of a constant Sprintf format, and the result of a module helper that builds the string from its
+// parameters (which are replaced by the arguments of the call). Adjacent literals are merged.
+func stringParts(v ssa.Value, bind map[*ssa.Parameter]ssa.Value, depth int) []strPart {
+	var out []strPart
+	add := func(ps ...strPart) {
+		for _, p := range ps {
+			if p.val == nil && len(out) > 0 && out[len(out)-1].val == nil {
+				out[len(out)-1].text += p.text
+				continue
+			}
+			if p.val == nil && p.text == "" {
+				continue
+			}
+			out = append(out, p)
+		}
+	}
+	if depth > 6 {
+		return []strPart{{val: v}}
+	}
+	switch x := v.(type) {
+	case *ssa.Const:
+		if x.Value != nil && x.Value.Kind() == constant.String {
+			add(strPart{text: constant.StringVal(x.Value)})
+			return out
+		}
+	case *ssa.Parameter:
+		if a, ok := bind[x]; ok {
+			return stringParts(a, nil, depth+1)
+		}
+	case *ssa.BinOp:
+		if x.Op == token.ADD {
+			add(stringParts(x.X, bind, depth+1)...)
+			add(stringParts(x.Y, bind, depth+1)...)
+			return out
+		}
+	case *ssa.Call:
+		if an.CalleeName(x) == "fmt.Sprintf" && len(x.Call.Args) == 2 {
+			if f, ok := x.Call.Args[0].(*ssa.Const); ok && f.Value != nil && f.Value.Kind() == constant.String {
+				args := variadicElems(x.Call.Args[1])
+				format := constant.StringVal(f.Value)
+				ai := 0
+				okFmt := true
+				for i := 0; i < len(format); i++ {
+					if format[i] != '%' {
+						add(strPart{text: string(format[i])})
+						continue
+					}
+					if i+1 < len(format) && (format[i+1] == 's' || format[i+1] == 'v') && ai < len(args) {
+						add(stringParts(args[ai], bind, depth+1)...)
+						ai++
+						i++
+						continue
+					}
+					okFmt = false
+					break
+				}
+				if okFmt && ai == len(args) {
+					return out
+				}
+				out = nil
+			}
+		}
+		if h := x.Call.StaticCallee(); h != nil && an.InModule(h) && len(h.Blocks) > 0 && h.Signature.Results().Len() == 1 {
+			rets := an.Returns(h)
+			if len(rets) == 1 {
+				b := map[*ssa.Parameter]ssa.Value{}
+				for i, p := range h.Params {
+					if i < len(x.Call.Args) {
+						b[p] = x.Call.Args[i]
+					}
+				}
+				return stringParts(rets[0].Results[0], b, depth+1)
+			}
+		}
+	case *ssa.MakeInterface:
+		return stringParts(x.X, bind, depth+1)
+	case *ssa.ChangeType:
+		return stringParts(x.X, bind, depth+1)
+	}
+	if vals := an.ValuesAt(v); len(vals) == 1 && vals[0] != v {
+		return stringParts(vals[0], bind, depth+1)
+	}
+	return []strPart{{val: v}}
+}
+
+// variadicElems lists the values stored into the slice literal passed as a variadic argument.
+func variadicElems(v ssa.Value) []ssa.Value {
+	sl, ok := v.(*ssa.Slice)
+	if !ok {
+		return nil
+	}
+	al, ok := sl.X.(*ssa.Alloc)
+	if !ok {
+		return nil
+	}
+	byIdx := map[int64]ssa.Value{}
+	n := int64(-1)
+	for _, u := range an.Referrers(al) {
+		ia, ok := u.(*ssa.IndexAddr)
+		if !ok {
+			continue
+		}
+		idx, isC := ia.Index.(*ssa.Const)
+		if !isC {
+			return nil
+		}
+		for _, u2 := range an.Referrers(ia) {
+			if st, ok := u2.(*ssa.Store); ok && st.Addr == ia {
+				byIdx[idx.Int64()] = st.Val
+				if idx.Int64() > n {
+					n = idx.Int64()
+				}
+			}
+		}
+	}
+	var out []ssa.Value
+	for i := int64(0); i <= n; i++ {
+		if byIdx[i] == nil {
+			return nil
+		}
+		out = append(out, byIdx[i])
+	}
+	return out
+}
+
+func derivesFromField(v ssa.Value, field string) bool {
+	for _, s0 := range an.Sources(v) {
+		if _, _, f, ok := an.FieldOf(rootLoad(s0)); ok && f == field {
+			return true
+		}
+	}
+	return false
 }
